@@ -285,7 +285,6 @@ construct_harness!(c26_construct_array_0, ConstructArray, 0u16, true);
 construct_harness!(c26_construct_array_3, ConstructArray, 3u16, true);
 construct_harness!(c01_construct_struct_0, ConstructStruct, 0u16, false);
 construct_harness!(c01_construct_struct_3, ConstructStruct, 3u16, false);
-construct_harness!(c01_make_closure_2, MakeClosure, 2u16, false); // closure = struct of ncaptures + 1 fields
 
 vm_harness! {
     #[kani::unwind(9)]
